@@ -182,15 +182,36 @@ func pfFingerprints(path, src string, pol ir.LiteralPolicy) (map[string]pfFP, er
 		}
 		out[n] = pfFP{fp, irt}
 	}
-	if c, ok := m["(rec).calc"]; ok {
-		if f, ok := out["F_method"]; ok {
-			out["F_method"] = pfFP{f.fp + "+" + c.fp, f.irText + "\n; ---- rec.calc ----\n" + c.irText}
-		}
-		if f, ok := out["G_method"]; ok {
-			out["G_method"] = pfFP{f.fp + "+" + c.fp, f.irText + "\n; ---- rec.calc ----\n" + c.irText}
+	// helper functions private to one base (declared after F in its source) count as part of it
+	for baseID, helpers := range progfam.PrivateHelpers {
+		for _, fn := range []string{pfFuncName(baseID), "G" + pfFuncName(baseID)[1:]} {
+			f, ok := out[fn]
+			if !ok {
+				continue
+			}
+			for _, h := range helpers {
+				if c, ok := out[h]; ok {
+					f = pfFP{f.fp + "+" + c.fp, f.irText + "\n; ---- " + h + " ----\n" + c.irText}
+				} else if c, ok := m[h]; ok {
+					f = pfFP{f.fp + "+" + c.fp, f.irText + "\n; ---- " + h + " ----\n" + c.irText}
+				}
+			}
+			out[fn] = f
 		}
 	}
 	return out, nil
+}
+
+// pfHelperOf returns the name of the family function (F_<base>) a private helper belongs to.
+func pfHelperOf(name string) string {
+	for baseID, helpers := range progfam.PrivateHelpers {
+		for _, h := range helpers {
+			if h == name {
+				return pfFuncName(baseID)
+			}
+		}
+	}
+	return ""
 }
 
 // pfEvaluate fills the facts of every case of the shard. wantDiff: also run cli.ComputeDiff.
@@ -255,7 +276,7 @@ func pfEvaluate(r *vh.Report, rounds [][]*pfCase, bases []progfam.Base, scratch 
 			if dout != nil && c.fnOld == c.fnNew {
 				// status of the function TOGETHER with the function literals nested in it
 				for _, fd := range dout.Functions {
-					if fd.Function == c.fnOld || strings.HasPrefix(fd.Function, c.fnOld+"$") || (c.fnOld == "F_method" && fd.Function == "(rec).calc") {
+					if fd.Function == c.fnOld || strings.HasPrefix(fd.Function, c.fnOld+"$") || pfHelperOf(fd.Function) == c.fnOld {
 						if !c.haveDiff {
 							c.status, c.fpMatch, c.haveDiff = fd.Status, fd.FingerprintMatch, true
 						} else {
@@ -274,8 +295,8 @@ func pfEvaluate(r *vh.Report, rounds [][]*pfCase, bases []progfam.Base, scratch 
 				if i := strings.Index(root, "$"); i > 0 {
 					root = root[:i]
 				}
-				if root == "(rec).calc" {
-					root = "F_method"
+				if owner := pfHelperOf(root); owner != "" {
+					root = owner
 				}
 				if !inRound[root] && !strings.Contains(fd.Function, "→") {
 					copies = append(copies, fd)
